@@ -725,23 +725,13 @@ def c17(tier):
         take(c14, r"/dir/(int|double|nolabel)/")
         take(c15_bin, r"/dir/(int|u8)/")
     else:
-        # the deeper tier of each harness family that exercises iterators, work lists, heaps, buffers and streams; the single-step
-        # harnesses of C01-C05/C16 are taken at the quick tier's selection plus the 4-vertex removal steps
-        take(c01, r"/dir/int/n3/.*/(core|neigh|edges|matrix|indegs)$")
+        # deeper tier of the harness families that exercise iterators, work lists, heaps, buffers and streams; the single-step harnesses
+        # are taken at the quick tier's selection (vf adds the quick tier's obligations to every thorough run). A first selection of
+        # 576 deeper queries in safety mode ran past two hours and was cut down to these.
         take(c01, r"/dir/int/n4/(removeVertexFromEdgeList|removeSelfLoops|removeEdge)/core$")
-        take(c02, r"/und/int/n3/.*/(core|neigh|degree|matrix)$")
-        take(c02, r"/und/int/n2/anystate/edges$")
-        take(c03, r"/(dir|und)/(string|struct)/n3/[^/]*/core$")
-        take(c04, r"/(dmg|umg)/n3/[^/]*/(core|degree|matrix)$")
         take(c04, r"wide")
-        take(c05, r"/(dwg|uwg)/n3/[^/]*/(core|wmatrix)$")
-        take(c16_simple, r"/core$")
-        take(c16_mg, r"/core$")
-        take(c16_wg, r"/core$")
-        take(c06, r"/(dir-int|umg|uwg)/n3-3/")
         take(c08, r".")
-        take(c09, r".")
-        take(c10, r"/n[23]-S[0-9empty]*$")
+        take(c10, r"/n3-S[0-9empty]*$")
         take(c11, r"/n3/")
         take(c12, r".")
         take(c13, r".")
